@@ -7,6 +7,7 @@ import (
 
 	"github.com/hashicorp/go-slug/sourceaddrs"
 
+	"verif/harness/corpus"
 	"verif/harness/fw"
 	"verif/harness/gen"
 )
@@ -164,6 +165,8 @@ func init() {
 			return res
 		},
 	}
+	// inputs kept by the coverage-guided campaigns are replayed first
+	c19Tricky = append(c19Tricky, corpus.Addresses()...)
 	c19Phases = append([]*fw.Phase{parsers}, c19MorePhases()...)
 	c19Phases = append(c19Phases,
 		nativeFuzzPhase("native-fuzz-parsers", "FuzzParsers", "", 4000000),
